@@ -247,6 +247,18 @@ def gen_inputs(ctx):
         out.append(("corpus:" + f.name, r["pdb"], r.get("args", [])))
     for name, t in pdbgen.test_files(["1HPX", "conf-alt-AB", "conf-model-missing-atoms", "sample-issue-140", "1FTJ-Chain-A"] if ctx.quick() else None):
         out.append((name, t, []))
+    # two titratable groups of one type that print the same label (insertion-coded twins): searched for until the structure
+    # really has them, so that every run meets a summary in which two rows carry one label
+    for _ in range(200):
+        tl, tids = pdbgen.multichain(rnd, nchains=1, twins=0.0)
+        tw = pdbgen.same_type_twins(rnd, tl, types=("LYS", "ASP", "GLU", "ARG", "TYR", "HIS"))
+        if tw is None:
+            continue
+        o = observe.run(pdbgen.text(tw), [], want_text=False)
+        labs = [g["label"] for g in o.confs.get("AVR", []) if g["titratable"]] if not o.error else []
+        if any(labs.count(l) > 1 for l in labs):
+            out.append(("same-label-twins", pdbgen.text(tw), []))
+            break
     # a chain without identifier next to a named one, selected with a space - alone and together with the named chain
     bl, bids = pdbgen.multichain(rnd, nchains=2, chains="AB", twins=0.0)
     if len(bids) == 2:
